@@ -159,8 +159,8 @@ theorem tp_strongest {W : AMat ℚ n} {p : ℚ} {order : List ℕ} {R : AMat ℚ
   rw [← List.take_append_drop (enNat W p) sel, List.map_append, List.pairwise_append] at hsort
   exact hsort.2.2 _ (List.mem_map_of_mem h1) _ (List.mem_map_of_mem h2)
 
-/-- every output cell is zero or the input cell (the transposed input cell below the diagonal when `ud = 2`) -/
-theorem tp_entries {W : AMat ℚ n} {p : ℚ} {order : List ℕ} {R : AMat ℚ n}
+/-- branch form: in the `ud = 2` branch a cell may carry the transposed input cell (used for `tp_entries`) -/
+theorem tp_entries_branch {W : AMat ℚ n} {p : ℚ} {order : List ℕ} {R : AMat ℚ n}
     (h : thresholdProportional W p order = .ok R) (i j : Fin n) :
     R.get i j = 0 ∨ (i ≠ j ∧ (R.get i j = W.get i j ∨ ((pre W).sym = true ∧ R.get i j = W.get j i))) := by
   obtain ⟨_, _, sel, hsel, _, rfl⟩ := tp_ok h
@@ -189,6 +189,16 @@ theorem tp_entries {W : AMat ℚ n} {p : ℚ} {order : List ℕ} {R : AMat ℚ n
         · right; exact ⟨fun e => h3 e.symm, Or.inr ⟨hs, by rw [h0, h4]⟩⟩
     · rw [if_neg hs]; left; exact hk0
 
+/-- **every output cell is 0 or the input cell** — at full strength, for every matrix: the `ud = 2` branch is taken only for exactly
+symmetric input (`pre_sym_iff`), where the transposed cell *is* the input cell -/
+theorem tp_entries {W : AMat ℚ n} {p : ℚ} {order : List ℕ} {R : AMat ℚ n}
+    (h : thresholdProportional W p order = .ok R) (i j : Fin n) :
+    R.get i j = 0 ∨ (i ≠ j ∧ R.get i j = W.get i j) := by
+  rcases tp_entries_branch h i j with h0 | ⟨hij, h1 | ⟨hs, h2⟩⟩
+  · exact Or.inl h0
+  · exact Or.inr ⟨hij, h1⟩
+  · exact Or.inr ⟨hij, by rw [h2, (pre_sym_iff W).mp hs j i (fun e => hij e.symm)]⟩
+
 /-- asymmetric branch, stated on the input: a kept entry is ≥ every dropped off-diagonal entry -/
 theorem tp_strongest_asym {W : AMat ℚ n} {p : ℚ} {order : List ℕ} {R : AMat ℚ n}
     (h : thresholdProportional W p order = .ok R) (hs : (pre W).sym = false)
@@ -200,7 +210,7 @@ theorem tp_strongest_asym {W : AMat ℚ n} {p : ℚ} {order : List ℕ} {R : AMa
     · rw [hs] at h1; cases h1
     · rw [h2, zeroDiag_get]
   have hij : i ≠ j ∧ R.get i j = W.get i j := by
-    rcases tp_entries h i j with h0 | ⟨h1, h2 | ⟨h3, _⟩⟩
+    rcases tp_entries_branch h i j with h0 | ⟨h1, h2 | ⟨h3, _⟩⟩
     · exact absurd h0 hkept
     · exact ⟨h1, h2⟩
     · rw [hs] at h3; cases h3
@@ -233,7 +243,7 @@ theorem tp_strongest_sym {W : AMat ℚ n} {p : ℚ} {order : List ℕ} {R : AMat
   obtain ⟨a, ha1, ha2, ha3⟩ := upper i j hij
   obtain ⟨b, hb1, hb2, hb3⟩ := upper k l hkl
   have hRa : R.get a.1 a.2 = W.get a.1 a.2 := by
-    rcases tp_entries h a.1 a.2 with h0 | ⟨_, h2 | ⟨_, h3⟩⟩
+    rcases tp_entries_branch h a.1 a.2 with h0 | ⟨_, h2 | ⟨_, h3⟩⟩
     · rw [ha2] at h0; exact absurd h0 hkept
     · exact h2
     · rw [h3]; exact hW _ _
@@ -241,6 +251,22 @@ theorem tp_strongest_sym {W : AMat ℚ n} {p : ℚ} {order : List ℕ} {R : AMat
     (by rw [hW1 _ _ hb1, hb3]; exact hw) (by rw [hb2]; exact hdrop)
   rw [hW1 _ _ ha1, hW1 _ _ hb1, ha3, hb3] at this
   exact ⟨this, by rw [← ha2, hRa, ha3]⟩
+
+
+/-- **strongest, at full strength on the input, no branch hypothesis**: whenever a cell is kept and an off-diagonal connection of the
+input is dropped, the dropped weight is at most the kept one, and the kept cell carries its input weight -/
+theorem tp_strongest_input {W : AMat ℚ n} {p : ℚ} {order : List ℕ} {R : AMat ℚ n}
+    (h : thresholdProportional W p order = .ok R)
+    (i j k l : Fin n) (hkl : k ≠ l) (hkept : R.get i j ≠ 0) (hw : W.get k l ≠ 0) (hdrop : R.get k l = 0) :
+    W.get k l ≤ W.get i j ∧ R.get i j = W.get i j := by
+  by_cases hs : (pre W).sym = true
+  · have hW : ∀ a b : Fin n, W.get a b = W.get b a := by
+      intro a b
+      by_cases e : a = b
+      · subst e; rfl
+      · exact (pre_sym_iff W).mp hs a b e
+    exact tp_strongest_sym h hW i j k l hkl hkept hw hdrop
+  · exact tp_strongest_asym h (by simpa using hs) i j k l hkl hkept hw hdrop
 
 /-! #### the number of kept connections -/
 
@@ -408,6 +434,8 @@ example : (pre Wsym).W1.get 0 1 ≤ (pre Wsym).W1.get 0 2 :=
 example := tp_strongest_asym run_asy (by decide +kernel) 0 1 1 2 (by decide) (by decide +kernel) (by decide +kernel)
   (by decide +kernel)
 example := tp_entries run_asy 2 0
+example := tp_strongest_input run_sym 2 0 1 0 (by decide) (by decide +kernel) (by decide +kernel) (by decide +kernel)
+example : (pre Wsym).sym = true ↔ ∀ i j : Fin 3, i ≠ j → Wsym.get i j = Wsym.get j i := pre_sym_iff Wsym
 example := tp_strongest_sym run_sym (by decide +kernel) 2 0 1 0 (by decide) (by decide +kernel) (by decide +kernel)
   (by decide +kernel)
 example : thresholdProportional Wsym (9 / 8) [] = .error .param := tp_param _ _ _ (Or.inl (by norm_num))
